@@ -194,15 +194,23 @@ type c16Hist struct {
 func (c *c16Hist) Key() string { return fmt.Sprint(c.Calls) }
 
 const (
-	c16SrcA   = "var a = 1\ndef blk \"n\" { x = a + 1; y = \"s\" }\nprint a\nbind blk -> struct"
+	c16SrcA   = "var a = 1\ndef blk \"n\" { x = a + 1; y = \"s\" }\nprint a\nbind blk -> struct\nbind blk:first -> slice"
 	c16SrcB   = "def c16_a { x = 3; y = 4 }\nprint 2.5\nbind c16_a -> struct"
 	c16SrcBad = "print )\nvar\nprint 1 +"
 	c16SrcRT  = "print 1\ndef q { z = 1/0 }"
 )
 
 type c16State struct {
-	pA    *bcl.Prog
-	dumpA []byte
+	pA         *bcl.Prog
+	dumpA      []byte
+	outA, logA *bytes.Buffer // the writers pA was parsed with
+}
+
+// take returns what was written to b since the last take.
+func take(b *bytes.Buffer) string {
+	s := b.String()
+	b.Reset()
+	return s
 }
 
 // c16Calls: each returns an observation string; they share a process state (the library) and pA.
@@ -215,11 +223,14 @@ var c16Calls = []struct {
 	{"Parse(bad)", func(st *c16State) string { return obsStr(impl.Parse(c16SrcBad)) }},
 	{"Interpret(rt)", func(st *c16State) string { return impl.Interpret(c16SrcRT).Summary() }},
 	{"Execute(pA)", func(st *c16State) string {
-		var out bytes.Buffer
-		_ = out
 		bl, bi, err := bcl.Execute(st.pA)
 		d, _ := impl.Dump(st.pA)
-		return impl.Ran{Blocks: bl, Binding: bi, Err: err}.Summary() + fmt.Sprintf(" dump-unchanged=%v", bytes.Equal(d, st.dumpA))
+		return impl.Ran{Blocks: bl, Binding: bi, Err: err, Out: take(st.outA), Log: take(st.logA)}.Summary() + fmt.Sprintf(" dump-unchanged=%v", bytes.Equal(d, st.dumpA))
+	}},
+	{"Execute(pA,other writers+trace+stats)", func(st *c16State) string {
+		var out2, log2 bytes.Buffer
+		bl, bi, err := bcl.Execute(st.pA, bcl.OptOutput(&out2), bcl.OptLogger(&log2), bcl.OptTrace(true), bcl.OptStats(true))
+		return impl.Ran{Blocks: bl, Binding: bi, Err: err, Out: take(st.outA), Log: take(st.logA)}.Summary() + fmt.Sprintf(" out2=%q log2=%q", out2.String(), log2.String())
 	}},
 	{"Dump(pA)", func(st *c16State) string { d, err := impl.Dump(st.pA); return fmt.Sprintf("%x %v", d, err) }},
 	{"LoadProg(dA)+Execute", func(st *c16State) string {
@@ -255,10 +266,10 @@ func obsStr(p impl.Parsed) string {
 }
 
 func newC16State() *c16State {
-	st := &c16State{}
-	p := impl.Parse(c16SrcA)
-	st.pA = p.Prog
-	st.dumpA, _ = impl.Dump(p.Prog)
+	st := &c16State{outA: &bytes.Buffer{}, logA: &bytes.Buffer{}}
+	p, _ := bcl.Parse([]byte(c16SrcA), "input", bcl.OptOutput(st.outA), bcl.OptLogger(st.logA))
+	st.pA = p
+	st.dumpA, _ = impl.Dump(p)
 	return st
 }
 
@@ -332,7 +343,81 @@ var c16UnmSources = []string{
 	"def c16_outer { x = 1; in = 2; def in { v = 3 } }\nbind c16_outer -> struct",
 }
 
+// c16RecTable: the outcome of every (same-named type, block) Bind, after first binding type `first`.
+func c16RecTable(first int) string {
+	var sb strings.Builder
+	order := []int{first}
+	for t := range c15RecTargets {
+		if t != first {
+			order = append(order, t)
+		}
+	}
+	res := map[string]string{}
+	for _, t := range order {
+		for bi, f := range c15RecBlocks {
+			target := c15RecTargets[t]()
+			fields := map[string]any{}
+			for k, v := range f {
+				fields[k] = v
+			}
+			err := bcl.Bind(target, bcl.StructBinding{Value: bcl.Block{Type: "rec", Fields: fields}})
+			res[fmt.Sprintf("%d/%d", t, bi)] = fmt.Sprintf("err=%v target=%s", err, snapshot(target))
+		}
+	}
+	for t := range c15RecTargets {
+		for bi := range c15RecBlocks {
+			k := fmt.Sprintf("%d/%d", t, bi)
+			fmt.Fprintf(&sb, "%s: %s\n", k, res[k])
+		}
+	}
+	return sb.String()
+}
+
+type c16FreshCase struct {
+	First int `json:"first"`
+}
+
+func (c *c16FreshCase) Key() string { return fmt.Sprint(c.First) }
+
+// c16.fresh-history: each history starts in a FRESH process (process-wide caches empty).
+var subC16Fresh = &fw.Sub{Name: "c16.fresh-history", New: func() fw.Case { return &c16FreshCase{} }, Exec: func(cs fw.Case) *fw.Fail {
+	c := cs.(*c16FreshCase)
+	run := func(first int) (string, error) {
+		cmd := exec.Command(os.Args[0], "c16-rec", fmt.Sprint(first))
+		out, err := cmd.Output()
+		return string(out), err
+	}
+	base, err := run(0)
+	if err != nil {
+		return fw.Failf("fresh process runs", "%v", err)
+	}
+	got, err := run(c.First)
+	if err != nil {
+		return fw.Failf("fresh process runs", "%v", err)
+	}
+	if got != base {
+		bl, gl := strings.Split(base, "\n"), strings.Split(got, "\n")
+		for i := range bl {
+			if i < len(gl) && bl[i] != gl[i] {
+				return fw.Failf("Bind outcome independent of which type was bound first in the process: "+bl[i], "when type %d is bound first: %s", c.First, gl[i])
+			}
+		}
+		return fw.Failf("identical outcome tables", "tables differ")
+	}
+	fw.TallyOutcome("fresh-history-independent")
+	fw.TallyNontrivial()
+	return nil
+}}
+
 func init() {
+	fw.Commands["c16-rec"] = func(args []string) int {
+		first := 0
+		if len(args) > 0 {
+			fmt.Sscan(args[0], &first)
+		}
+		fmt.Print(c16RecTable(first))
+		return 0
+	}
 	fw.Commands["c16-digest"] = func(args []string) int {
 		fmt.Println(C16Digest())
 		return 0
@@ -342,14 +427,17 @@ func init() {
 		Level: "model_checking",
 		Rule: "(a) every map iteration order (explored exhaustively through the map-order choice point of the rewritten package) of every range-over-map executed by Bind, for the binding x target space of C15 and for Unmarshal of programs whose keys collide on one field, hold several faulty fields, or hold several named inner blocks: target and error text must be identical for all orders; " +
 			"(b) every goroutine schedule with <=B preemptions (quick 1, thorough 2) of Parse, ParseFile (3 chunks) and Interpret on corpus inputs (valid, several diagnostics, lexical failure): dump bytes, diagnostics, output, blocks, binding identical on all schedules; " +
-			"(c) every history of <=L calls (quick 3, thorough 4) over an 11-call alphabet (Parse of 3 inputs, Interpret, Execute/Dump of one shared Prog, LoadProg+Execute, Unmarshal good/bad, InterpretFile, Interpret with all options): each call's result equals its result as the first call of a fresh state, and Dump(p) is unchanged by Execute(p); " +
+			"(c) every history of <=L calls (quick 3, thorough 4) over a 12-call alphabet (Parse of 3 inputs, Interpret, Execute/Dump of one shared Prog, LoadProg+Execute, Unmarshal good/bad, InterpretFile, Interpret with all options): each call's result equals its result as the first call of a fresh state, and Dump(p) is unchanged by Execute(p); histories that start in a fresh process (each of three same-named struct types bound first) must give the same Bind outcome table; " +
 			"(d) supplementary (sampling): a digest over all first-call results from fresh processes with GOMAXPROCS 1/2/16 (different hash seeds) must be identical.",
-		Subs:           []*fw.Sub{subC16Map, subC16Unm, subC16Sched, subC16Hist},
+		Subs:           []*fw.Sub{subC16Map, subC16Unm, subC16Sched, subC16Hist, subC16Fresh},
 		BudgetQuick:    100,
 		BudgetThorough: 1500,
 		Assumptions: []string{"hash seeds are observable only through map iteration order and CPU counts only through scheduling; both are enumerated instead of sampled",
-			"histories are limited to the 11-call alphabet"},
+			"histories are limited to the 12-call alphabet"},
 		Run: func(c *fw.Ctx) {
+			for first := range c15RecTargets {
+				c.Do(subC16Fresh, &c16FreshCase{First: first})
+			}
 			// (c) histories
 			L := 3
 			if c.Thorough() {
